@@ -22,6 +22,9 @@ const NOWS_UTC: &[&str] = &[
     "1970-01-01T00:00:00Z",
     "2024-02-28T23:59:59Z",
     "2000-02-29T12:00:00Z",
+    // beyond the range of 64-bit nanosecond timestamps (1677-09-21 .. 2262-04-11)
+    "2300-01-01T00:00:00Z",
+    "1600-06-15T12:00:00Z",
 ];
 const NOW_ZONES: &[i64] = &[0, 9 * 3600, -8 * 3600];
 
@@ -328,6 +331,9 @@ fn duplicate_to(r: &Report) {
         ("to to=\"2000-01-01 00:00:00\"", false),
         ("to=\"never\" to=\"2000-01-01 00:00:00\"", false),
         ("to=\"2000-01-01 00:00:00\" to", true),
+        // an "always expired" sentinel far in the past
+        ("to=\"0001-01-01 00:00:00\"", true),
+        ("to=\"1600-01-01 00:00:00\"", true),
     ];
     for (attrs, want) in rows {
         let src = format!("a();\n<tl {attrs}>\nPROBE();\n</tl>\nb();\n");
